@@ -9,7 +9,7 @@ Import ListNotations.
 Open Scope nat_scope.
 
 Section C05.
-Context {D SY : Type} (dops : dict_ops D) (sops : syl_ops SY) (conv : conv_fn).
+Context {D SY : Type} (dops : dict_ops D) (sops : syl_ops SY) (conv : conv_fn D).
 (* "well-formed dictionary": no entry for the empty syllable sequence, preserved by the updates
    the editor performs (EdInstProofs shows the instance used in the correspondence satisfies it) *)
 Variable dict_ok : D -> Prop.
